@@ -67,6 +67,9 @@ pub enum SchedEvent {
     /// and is about to wait for a compaction to make room (it holds the tree's compaction lock;
     /// the hook must not block).
     IngestStalled,
+    /// The calling thread returned from that wait (it holds the compaction lock again; the hook
+    /// must not block).  It either reports `IngestStalled` once more or goes on to ingest.
+    IngestWoke,
 }
 
 static SCHED_HOOK: std::sync::RwLock<Option<fn(SchedEvent)>> = std::sync::RwLock::new(None);
